@@ -21,7 +21,30 @@ ASSUME = ["the interestingness test sees only the file, its arguments and the pr
           "SHA-512 collision-freeness (the model de-duplicates on content equality)"]
 
 
+def move_aborts(ex, ck):
+    """the experimental move re-uses candidate objects: abort at the LAST and the last-but-one test of every explored
+    verdict sequence (the test right after an accepted move is where an aliased, half-edited testcase would be
+    restored)"""
+    from explore import content
+    from universe import EXCS
+    quick = ck.tier == "quick"
+    for parts in ([b"{\n", b"a\n", b"b\n", b"c\n", b"}\n"], [b"(\n", b"x\n", b"y\n", b")\n", b"z\n"],
+                  [b"[\n", b"p\n", b"q\n", b"]\n"]):
+        tc = (b"", parts, [True] * len(parts), b"")
+        runs = ex.dfs("minimize-balanced", {"move": True}, tc, stream="move-dfs", max_runs=120 if quick else 1200)
+        seen = set()
+        for run in runs:
+            v = "".join(a for _, _, a in run.seen)
+            for k in (len(v), len(v) - 1):
+                if k < 2 or v[:k - 1] + "R" in seen:
+                    continue
+                seen.add(v[:k - 1] + "R")
+                ex.one("minimize-balanced", {"move": True}, tc, content(tc), v[:k - 1] + "R",
+                       exc_class=EXCS[(k + len(v)) % len(EXCS)], stream="move-abort")
+
+
 def extra(ex, ck):
+    move_aborts(ex, ck)
     """the kill half with REAL processes: `python -m lithium` SIGKILLed while test k is running; the highest
     '*-interesting' copy in the temp dir (else 'original') must be the last accepted version"""
     from concurrent.futures import ThreadPoolExecutor
